@@ -47,14 +47,14 @@ func v10cKeyOf(e expr.Evaluator, rec zed.Value) int64 {
 	return v.Int()
 }
 
-// v10cRec is {lk:X,rk:X} with X an int64 or null.
-func v10cRec(zctx *zed.Context, isNull bool, x int64) (zed.Value, zed.Value) {
+// v10cRec is {lk:X,rk:X} and the key value X: null(int64) or the int64 with
+// the one-byte body [x] (x != 0: every non-zero integer of magnitude <= 127).
+func v10cRec(zctx *zed.Context, isNull bool, x byte) (zed.Value, zed.Value) {
 	var body zcode.Bytes
-	key := zed.NewValue(zed.TypeInt64, nil)
 	if !isNull {
-		body = zed.EncodeInt(x)
-		key = zed.NewInt64(x)
+		body = zcode.Bytes{x}
 	}
+	key := zed.NewValue(zed.TypeInt64, body)
 	var b zcode.Builder
 	b.Append(body)
 	b.Append(body)
@@ -205,10 +205,10 @@ func v10cJoinSortOrder() {
 	jop, ok := out[0].(*join.Op)
 	verif.Assume(ok)
 	left, right, _, _, _, _, compare := join.VerifPlan(jop)
-	// two key values: int64 (any int8 payload) or null
+	// two key values: int64 (one-byte body) or null
 	nulls := verif.Choose("nulls", 3) // 0: none, 1: a is null, 2: b is null
-	a := int64(verif.Int8("a"))
-	c := int64(verif.Int8("b"))
+	a, c := verif.Byte("a"), verif.Byte("b")
+	verif.Assume(a != 0 && c != 0)
 	ra, ka := v10cRec(zctx, nulls == 1, a)
 	rb, kb := v10cRec(zctx, nulls == 2, c)
 	joinSign := v10cSign(compare(ka, kb))
@@ -238,7 +238,7 @@ func v10cJoinSortOrder() {
 }
 
 // verif:desc C10-O4b the sort that join.New inserts and the join's own comparison must define the same order, otherwise the merge join walks an input that is not ordered the way it compares: for two records with keys a, b the sign of the inserted sort.Op's comparator (real sort.Op.setComparator: nullsMax is flipped for a descending first key, then expr.Comparator.Compare) equals the sign of join.Op.compare (expr.NewValueCompareFn(o, nullsMax=true)) on the key values.
-// verif:bounds LeftDir x RightDir in {Unknown,Up,Down}^2 (Style inner); keys a, b: any int8 as int64, or one of them null(int64)
+// verif:bounds LeftDir x RightDir in {Unknown,Up,Down}^2 (Style inner); keys a, b: any non-zero int64 of magnitude <= 127 (symbolic one-byte body), or one of them null(int64)
 // verif:outside inputs that are not re-sorted (their null placement is whatever the upstream order is); key types other than int64; executing the join
 func VerifH_C10_O4b_join_plan_sort_order() {
 	v10cJoinSortOrder()
